@@ -12,14 +12,14 @@ RULE = ('cases = every set of 1..4 (thorough 5) ranges with (marker, start) draw
         'built through Multi_Range_Potential_Form / create_Multi_Range_Potential_Form and through potable text (first range '
         'optionally unmarked) and evaluated (value, deriv, deriv2) at r in {-1,0,.5,..,3.5} + nextafter(start, +-inf) in ascending, '
         'descending and interleaved order on the same object; non-trivial = set with >= 2 ranges')
-RULE += '; 9 constructions per listing order: class, factory, default_value=25 (also with one zero() range), public range_defns setter after other ranges, ranges without analytic derivatives, ranges offering .deriv only (deriv2 offered iff some range offers it), Multi_Range_Defn instances shared with two other potentials, potable text (marked / first range unmarked); sets that repeat a definition; 9, 10, 12 and 14 ranges in five structured orders; the caller\'s idioms on the public range_defns property (list from the getter extended and assigned back, +=, generator / reversed() over the current list) and copies (copy.deepcopy of class, factory and potable objects, copy.copy given other ranges) must select like a fresh object'
+RULE += '; 9 constructions per listing order: class, factory, default_value=25 (also with one zero() range), public range_defns setter after other ranges, ranges without analytic derivatives, ranges offering .deriv only (deriv2 offered iff some range offers it), Multi_Range_Defn instances shared with two other potentials, potable text (marked / first range unmarked); sets that repeat a definition; 9, 10, 12 and 14 ranges in five structured orders; the caller\'s idioms on the public range_defns property (list from the getter extended and assigned back, +=, generator / reversed() over the current list) and copies (copy.deepcopy of class, factory and potable objects, copy.copy given other ranges) must select like a fresh object; range starts of type numpy.float64 and int'
 ASSUMPTIONS = [
     'two ranges with identical marker AND start are outside the alphabet (the statement cannot be satisfied for them)',
     'for r strictly above a start shared by a ">=" and a ">" range the statement does not say which is used: either is accepted, '
     'but value, deriv and deriv2 must come from the same range and not depend on the listing or evaluation order',
     'quadratics with pairwise distinct value, slope and curvature identify the selected range from the observed numbers',
 ]
-BOUNDS = {'quick': 'sets of <= 4 ranges: 162 sets, 2080 ordered lists, x 16 constructions x 3 evaluation orders; 4 sets with repeated definitions; 12 sets of 9-14 ranges',
+BOUNDS = {'quick': 'sets of <= 4 ranges: 162 sets, 2080 ordered lists, x 18 constructions x 3 evaluation orders; 4 sets with repeated definitions; 12 sets of 9-14 ranges',
           'thorough': 'sets of <= 6 ranges (all listing orders, 720 per 6-set); <= 4 ranges incl. start -inf through the API; 9-14 ranges in 5 structured orders'}
 
 STARTS = [0.0, 1.0, 2.0, 3.0]
@@ -114,7 +114,13 @@ def build_api(order, direct, default=None, setter=False, numeric=False, zero_q=N
         if derivonly and q % 2:
             return deriv_only_quad(q)
         return plain_quad(q) if (numeric and q % 2) else R.api_item(quad(q))
-    defs = [Multi_Range_Defn(m, (float('-inf') if s is None else s), callable_for(q)) for m, s, q in order]
+    mkstart = (lambda v: v)
+    if idiom == 'numpy-starts':
+        import numpy
+        mkstart = numpy.float64               # range starts taken from numpy arrays (numpy.float64 is a float)
+    elif idiom == 'int-starts':
+        mkstart = lambda v: int(v) if v == int(v) and abs(v) != float('inf') else v    # noqa
+    defs = [Multi_Range_Defn(m, mkstart(float('-inf') if s is None else s), callable_for(q)) for m, s, q in order]
     kw = {} if default is None else {'default_value': default}
     if shared:
         # the same Multi_Range_Defn INSTANCES also serve two other potentials whose further ranges start elsewhere
@@ -207,7 +213,9 @@ def run_case(case):
                 ('class, lazy iterables over the current list assigned', build_api(order, True, idiom='lazy-assign')),
                 ('copy.deepcopy of the class object (original re-assigned afterwards)', build_api(order, True, idiom='deepcopy')),
                 ('copy.deepcopy of the factory object', build_api(order, False, idiom='deepcopy')),
-                ('class object whose copy.copy was given other ranges', build_api(order, True, idiom='copy'))]
+                ('class object whose copy.copy was given other ranges', build_api(order, True, idiom='copy')),
+                ('class, range starts of type numpy.float64', build_api(order, True, idiom='numpy-starts')),
+                ('factory, range starts of type int', build_api(order, False, idiom='int-starts'))]
         if not case['api_inf'] and build_cfg(order, False) is not None:
             objs.append(('potable', build_cfg(order, False)))
             import copy as _copy
